@@ -22,8 +22,8 @@ def obligations(tier, seed):
     loopmem = "memcpy/memmove/memset byte-loop models (models/c06_env.h, ENV_LOOP_MEM) so that constants propagate through block copies"
     # `p_end = p + mx->max_packet_size - 46` (dvb_mux.c generate_pes_packet) forms p + max_packet_size first, which is 46 bytes beyond the end of the
     # packet buffer (also with the real 65508 byte buffer and the default max size 65504) before 46 is subtracted: standard-level UB no compiler or
-    # sanitizer distinguishes -> ub_note, not a violation
-    common = dict(harness="h_c06.c", units=U, ignore=[r"generate_pes_packet:pointer arithmetic: pointer outside object bounds in p \+"])
+    # sanitizer distinguishes; CBMC treats it as fatal (later properties UNKNOWN), so the expression is parenthesised by a patch (PE) and reported as ub note
+    common = dict(harness="h_c06.c", units=U)
     # ---- (a1) conformance, everything symbolic, independent parser only
     conf_q = [dict(NL=2, BUF=92, FIXED=1), dict(NL=2, BUF=52, FIXED=0)]
     conf_t = conf_q + [dict(NL=2, BUF=46, FIXED=1), dict(NL=3, BUF=92, FIXED=1), dict(NL=2, BUF=22, FIXED=0), dict(NL=2, BUF=6, FIXED=0),
@@ -88,6 +88,7 @@ def obligations(tier, seed):
     # reset_frame(): `if (f->rp > f->raw)` compares two NULL pointers when no raw buffer is attached (always, through the public API).  CBMC's pointer
     # check treats a relational comparison of NULL pointers as a fatal failure and reports every later property UNKNOWN.  The comparison is rewritten
     # to compare the addresses as integers (same result on every supported platform); recorded as a cut + ub_note in the report.
+    PE = (r"p_end = p \+ mx->max_packet_size - 46;", "p_end = p + (mx->max_packet_size - 46);")
     RF = (r"if \(f->rp > f->raw\)", "if ((uintptr_t) f->rp > (uintptr_t) f->raw)")
     pk_desc = ("vbi_dvb_pes_mux_new/vbi_dvb_ts_mux_new + set_pes_packet_size + set_data_identifier + vbi_dvb_mux_feed with a recording callback; frame structure on the grid, "
                "symbolic 64-bit PTS, payload, data_identifier of the class: accepted iff every selected line is legal, ascending and the units fit max_packet_size-46; "
@@ -100,7 +101,8 @@ def obligations(tier, seed):
     pk_enc = ["vbi_dvb_mux_feed", "generate_pes_packet", "encode_timestamp", "init_pes_packet_header", "generate_ts_packet_header",
               "vbi_dvb_pes_mux_new", "vbi_dvb_ts_mux_new", "vbi_dvb_mux_set_pes_packet_size", "vbi_dvb_mux_set_data_identifier",
               "vbi_dvb_demux_feed", "demux_pes_packet", "demux_pes_packet_frame", "valid_vbi_pes_packet_header", "decode_timestamp", "extract_data_units", "wrap_around"]
-    pk_assumes = ["reset_frame(): NULL > NULL pointer comparison rewritten to an integer comparison (patch), see ub note",
+    pk_assumes = ["generate_pes_packet(): `p + mx->max_packet_size - 46` parenthesised as `p + (mx->max_packet_size - 46)` (patch; the intermediate pointer is out of bounds, see ub note)",
+                  "reset_frame(): NULL > NULL pointer comparison rewritten to an integer comparison (patch), see ub note",
                   "R7/R2(e): multiplexer = directly constructed post-constructor state in a static object (zero + the fields the constructor sets + real "
                   "init_pes_packet_header) with an exact-size packet buffer of 4+max_packet_size bytes instead of 65508; mux_ctor decides that the real constructors "
                   "produce exactly this state",
@@ -108,7 +110,7 @@ def obligations(tier, seed):
     pk_bounds = "frame structures/packet size limits/PID on the grid (184..552 bytes, 1..3 TS packets); two frames per run"
     pk_outside = "PES packets > 552 bytes; raw VBI lines; callback returning FALSE; symbolic PID in the end-to-end run (symbolic in mux_config)"
     return [
-        Ob("mux_sliced_conformance", func="h_mux_sliced", unwind=51, unwindset={"encode_stuffing.0": 5, "check_stuffing_tail.0": 70},
+        Ob("mux_sliced_conformance", func="h_mux_sliced", defines={"G_SL": None}, unwind=51, unwindset={"encode_stuffing.0": 5, "check_stuffing_tail.0": 70},
            solver="cadical",
            desc="vbi_dvb_multiplex_sliced on NL fully symbolic vbi_sliced (id, line, 56 data bytes), symbolic service_mask, data_identifier (class on the grid), "
                 "stuffing flag, into a BUF byte buffer: an independent EN 300 472/EN 301 775 parser finds exactly the selected lines, in order, as legal data units "
@@ -119,7 +121,7 @@ def obligations(tier, seed):
            bounds="NL = 2 lines (quick) / up to 3 (thorough), BUF on the grid; everything else symbolic",
            outside="frames of more than 3 lines with symbolic ids; raw (monochrome) data units",
            grid=conf_t, quick_grid=conf_q, reach=["end", "all_lines", "rejected"], timeout=600, mem_gb=3, vin_size=700, stubs=stubs, **common),
-        Ob("mux_sliced_roundtrip", func="h_mux_sliced", unwind=51, unwindset=uw_rt, flags=fs, defines={"ENV_LOOP_MEM": 1},
+        Ob("mux_sliced_roundtrip", func="h_mux_sliced", unwind=51, unwindset=uw_rt, flags=fs, defines={"ENV_LOOP_MEM": 1, "G_SL": None},
            desc="same harness with the frame structure fixed by the grid (service ids, line numbers, mask, data_identifier, stuffing, buffer size; payload bytes "
                 "and buffer pre-fill symbolic): the parser assertions above AND the real _vbi_dvb_demultiplex_sliced on the emitted bytes returns TRUE, the same number "
                 "of lines, same service, same line number (including 0), same payload bits (Teletext 42, VPS 13, WSS 14 bits, CC 2 bytes), consumes all bytes",
@@ -128,37 +130,37 @@ def obligations(tier, seed):
                   "masked lines, 1-byte-left stuffing corner, buffers up to 377 bytes); all 2^(8*payload) payloads per structure",
            outside="structures not on the grid (measured: symbolic structure makes frame.sp symbolic: 2.3 M clauses per demux loop iteration, no verdict in 150 s)",
            grid=rt_t, quick_grid=rt_q, reach=["end"], timeout=300, mem_gb=3, vin_size=900, stubs=stubs + [loopmem], **common),
-        Ob("mux_demux_line_agreement", func="h_mux_sliced", unwind=51, unwindset={"extract_data_units.8": 4, "encode_stuffing.0": 3},
+        Ob("mux_demux_line_agreement", func="h_mux_sliced", defines={"G_SL": None}, unwind=51, unwindset={"extract_data_units.8": 4, "encode_stuffing.0": 3},
            solver="cadical",
            desc="one line, service id from the grid, line number fully symbolic (2^32), payload, data_identifier, stuffing symbolic: whenever the multiplexer accepts "
                 "the line the real demultiplexer accepts the unit and returns the same line number/service/payload (mux and demux agree on legal lines and their coding)",
            encodes=["vbi_dvb_multiplex_sliced", "_vbi_dvb_demultiplex_sliced", "line_address"],
            bounds="single-line frames", grid=one_t, quick_grid=one_q, reach=["end", "all_lines", "rejected"], timeout=600, mem_gb=4, vin_size=700,
            stubs=stubs, **common),
-        Ob("mux_sliced_badsize", func="h_mux_sliced_badsize", unwind=66,
+        Ob("mux_sliced_badsize", func="h_mux_sliced_badsize", defines={"G_SL": None}, unwind=66,
            desc="*packet_left < 2, or not a multiple of 46 with data_identifier 0x10..0x1F: FALSE, all arguments and the buffer unchanged",
            encodes=["vbi_dvb_multiplex_sliced"], bounds="none (all 2^32 sizes/data_identifiers)", timeout=120, vin_size=256, stubs=stubs, **common),
-        Ob("mux_packets_pes", func="h_mux_packets", unwind=51, unwindset=uw_pk, flags=fs, defines={"ENV_LOOP_MEM": 1, "PIDV": "0x123"},
-           patch={"src/dvb_demux.c": [RF]},
+        Ob("mux_packets_pes", func="h_mux_packets", unwind=51, unwindset=uw_pk, flags=fs, defines={"ENV_LOOP_MEM": 1, "PIDV": "0x123", "G_PK": None},
+           patch={"src/dvb_demux.c": [RF], "src/dvb_mux.c": [PE]},
            desc=pk_desc, encodes=pk_enc, assumes=pk_assumes + ["R2(e): demux pes_wrap.buffer re-pointed to an exact-size array of max_packet_size+8 bytes"],
            bounds=pk_bounds, outside=pk_outside, grid=[g for g in pk_t if g["TS"] == 0], quick_grid=[g for g in pk_q if g["TS"] == 0],
            reach=["end"], timeout=400, mem_gb=3, vin_size=900, stubs=stubs + [loopmem], **common),
         Ob("mux_packets_ts", func="h_mux_packets", unwind=51, unwindset=uw_pk, flags=fs,
-           defines={"ENV_LOOP_MEM": 1, "PIDV": "0x1ABC", "SCALED_PES_BUFFER": 1, "PESCAP_SCALED": 576},
-           patch={"src/dvb_demux.c": [(r"pes_buffer\[ALIGN \(6 \+ 65536\)\]", "pes_buffer[PESCAP_SCALED]"), RF]},
+           defines={"ENV_LOOP_MEM": 1, "PIDV": "0x1ABC", "SCALED_PES_BUFFER": 1, "PESCAP_SCALED": 576, "G_PK": None},
+           patch={"src/dvb_demux.c": [(r"pes_buffer\[ALIGN \(6 \+ 65536\)\]", "pes_buffer[PESCAP_SCALED]"), RF], "src/dvb_mux.c": [PE]},
            desc=pk_desc + "  [TS mode]", encodes=pk_enc + ["demux_ts_packet"],
            assumes=pk_assumes + ["scaled unit: dvb_demux.c compiled with pes_buffer[576] instead of [65552] (PES packets here are <= 552 bytes; any access beyond is a bounds failure) "
                                  "- the TS demultiplexer addresses dx->pes_buffer directly and symex over the 64 KB array took ~40 s per Teletext unit"],
            bounds=pk_bounds, outside=pk_outside, grid=[g for g in pk_t if g["TS"] == 1], quick_grid=[g for g in pk_q if g["TS"] == 1],
            reach=["end"], timeout=400, mem_gb=3, vin_size=900, stubs=stubs + [loopmem], **common),
-        Ob("mux_reject_state", func="h_mux_reject_state", unwind=51, unwindset=uw_pk, flags=fs, defines={"ENV_LOOP_MEM": 1},
+        Ob("mux_reject_state", func="h_mux_reject_state", unwind=51, unwindset=uw_pk, flags=fs, defines={"ENV_LOOP_MEM": 1, "PIDV": "0x1FFE", "G_MX": None}, patch={"src/dvb_mux.c": [PE]},
            desc="frames that are illegal or too big (structure on the grid: descending lines, VPS/Teletext on a wrong line, unsupported service, 4 Teletext lines into 184 bytes; "
                 "payload, PTS, PID, data_identifier of the class, continuity counter symbolic): vbi_dvb_mux_feed returns FALSE, the callback is never called, every field of "
                 "the multiplexer object (sizes, data_identifier, pid, continuity counter, coroutine cursors, callback, packet pointer) is unchanged",
            encodes=["vbi_dvb_mux_feed", "generate_pes_packet", "insert_sliced_data_units"],
            assumes=pk_assumes, bounds="bad frames on the grid", grid=rej_t, quick_grid=rej_q, reach=["end"], timeout=300, mem_gb=3, vin_size=700,
            stubs=stubs + [loopmem], **common),
-        Ob("mux_cor_equals_feed", func="h_mux_cor_equiv", unwind=51, flags=fs, defines={"ENV_LOOP_MEM": 1},
+        Ob("mux_cor_equals_feed", func="h_mux_cor_equiv", unwind=51, flags=fs, defines={"ENV_LOOP_MEM": 1, "PIDV": "0x10", "G_MX": None}, patch={"src/dvb_mux.c": [PE]},
            unwindset=dict(uw_pk, **{"h_mux_cor_equiv.3": 401, "h_mux_cor_equiv.2": 401, "h_mux_cor_equiv.4": 401}),
            desc="the same frame (structure on the grid, payload/PTS/PID symbolic) through vbi_dvb_mux_feed (callback) and through vbi_dvb_mux_cor drained with an OBUF byte "
                 "buffer: same verdict, same byte sequence, buffer pointer/left consistent, every call makes progress and fills the buffer unless the frame is finished; "
@@ -167,12 +169,12 @@ def obligations(tier, seed):
            assumes=pk_assumes, bounds="one PES packet of 184 bytes, OBUF on the grid (1..400 bytes)",
            outside="coroutine with PES packets > 184 bytes", grid=cor_t, quick_grid=cor_q, reach=["end"], timeout=300, mem_gb=3, vin_size=700,
            stubs=stubs + [loopmem], **common),
-        Ob("mux_ctor", func="h_mux_ctor", unwind=51, unwindset={"memset.0": 1000}, defines={"ENV_LOOP_MEM": 1},
+        Ob("mux_ctor", func="h_mux_ctor", unwind=51, unwindset={"memset.0": 1000}, defines={"ENV_LOOP_MEM": 1, "G_MX": None},
            desc="vbi_dvb_pes_mux_new / vbi_dvb_ts_mux_new(pid symbolic) return an object whose every field and initialised PES header bytes equal the directly constructed "
                 "state used by the other mux obligations; NULL exactly for PIDs outside 0x10..0x1FFE",
            encodes=["vbi_dvb_pes_mux_new", "vbi_dvb_ts_mux_new", "init_pes_packet_header"], bounds="none", reach=["end", "constructed"],
            timeout=120, vin_size=64, stubs=stubs + [loopmem], **common),
-        Ob("mux_config", func="h_mux_config", unwind=4,
+        Ob("mux_config", func="h_mux_config", defines={"G_MX": None}, unwind=4,
            desc="documented defaults; set_pes_packet_size rounds min up / max down to multiples of 184 within 184..65504 and raises max to min; "
                 "set_data_identifier accepts exactly 0x10..0x1F, 0x99..0x9B and keeps the old value otherwise; ts_mux_new accepts exactly PID 0x10..0x1FFE",
            encodes=["vbi_dvb_mux_set_pes_packet_size", "vbi_dvb_mux_set_data_identifier", "vbi_dvb_ts_mux_new", "vbi_dvb_pes_mux_new"],
